@@ -12,7 +12,7 @@ Separate Extraction
   Order.inputs_ordered Order.coupling_ordered Order.outputs Order.stream_assignment
   Sys.is_topological Sys.eval Sys.eval_targets
   Refine.select Refine.indicator
-  Grid.run_history Grid.beta_to_knots Grid.grid_coords Cost.allocation Cost.actual
+  Grid.run_history Grid.beta_to_knots Grid.grid_coords Cost.allocation Cost.allocation_upto Cost.actual
   Sched.executor_path Sched.serial_path Sched.error_indices
   Codec.show_tuple Codec.parse_tuple Codec.show_pair Codec.parse_pair Codec.save_tree Codec.load_tree Codec.save_index_set Codec.load_index_set
   Fault.rebase Fault.error_records Fault.with_imputed
